@@ -1,0 +1,107 @@
+// SPDX-FileCopyrightText: 2026 The Pion community <https://pion.ly>
+// SPDX-License-Identifier: MIT
+
+//go:build verif && !js
+
+package webrtc
+
+import (
+	"sync"
+
+	"github.com/pion/sdp/v3"
+)
+
+// VerifTransportStart is what SetRemoteDescription handed to startTransports (verification hook, C13).
+type VerifTransportStart struct {
+	ICERole        ICERole
+	RemoteDTLSRole DTLSRole
+}
+
+var verifTransportStartCapture sync.Map // *PeerConnection -> chan VerifTransportStart
+
+// VerifCaptureTransportStart registers pc: the arguments of its next startTransports call are sent
+// on the returned channel.
+func VerifCaptureTransportStart(pc *PeerConnection) <-chan VerifTransportStart {
+	ch := make(chan VerifTransportStart, 4)
+	verifTransportStartCapture.Store(pc, ch)
+
+	return ch
+}
+
+// VerifReleaseTransportStart forgets pc.
+func VerifReleaseTransportStart(pc *PeerConnection) {
+	verifTransportStartCapture.Delete(pc)
+}
+
+// verifStartTransports is called on entry to startTransports.
+func verifStartTransports(pc *PeerConnection, iceRole ICERole, dtlsRole DTLSRole) {
+	if v, ok := verifTransportStartCapture.Load(pc); ok {
+		if ch, ok := v.(chan VerifTransportStart); ok {
+			select {
+			case ch <- VerifTransportStart{ICERole: iceRole, RemoteDTLSRole: dtlsRole}:
+			default:
+			}
+		}
+	}
+}
+
+// VerifICERole is the role the PeerConnection's ICETransport was started with (ICETransport.Role()).
+func VerifICERole(pc *PeerConnection) ICERole {
+	return pc.iceTransport.Role()
+}
+
+// VerifDTLSRoleAtStart returns what DTLSTransport.role() answers on pc's own DTLS transport once
+// Start has stored remote parameters carrying the given role (prepareStart stores them verbatim and
+// then calls role()); the SettingEngine and the ICETransport are pc's real ones.
+func VerifDTLSRoleAtStart(pc *PeerConnection, remote DTLSRole) DTLSRole {
+	t := pc.dtlsTransport
+	t.lock.Lock()
+	defer t.lock.Unlock()
+	saved := t.remoteParameters
+	t.remoteParameters = DTLSParameters{Role: remote}
+	defer func() { t.remoteParameters = saved }()
+
+	return t.role()
+}
+
+// VerifDTLSRoleLive returns DTLSTransport.role() on pc's DTLS transport as it stands (after Start it
+// is evaluated on the remote parameters Start stored, i.e. it repeats the decision prepareStart made).
+func VerifDTLSRoleLive(pc *PeerConnection) (DTLSRole, DTLSRole) {
+	t := pc.dtlsTransport
+	t.lock.RLock()
+	defer t.lock.RUnlock()
+
+	return t.role(), t.remoteParameters.Role
+}
+
+// VerifDTLSTransportRole evaluates DTLSTransport.role() on a bare transport with the given remote
+// role, configured answering role and ICE role (raw values allowed).
+func VerifDTLSTransportRole(remote, configured DTLSRole, ice ICERole) DTLSRole {
+	t := &DTLSTransport{
+		api:              &API{settingEngine: &SettingEngine{answeringDTLSRole: configured}},
+		iceTransport:     &ICETransport{role: ice},
+		remoteParameters: DTLSParameters{Role: remote},
+	}
+
+	return t.role()
+}
+
+// VerifConnectionRoleFromDtlsRole exposes connectionRoleFromDtlsRole ("" for the zero ConnectionRole).
+func VerifConnectionRoleFromDtlsRole(d DTLSRole) string {
+	c := connectionRoleFromDtlsRole(d)
+	if c == sdp.ConnectionRole(0) {
+		return ""
+	}
+
+	return c.String()
+}
+
+// VerifDtlsRoleFromSDP exposes dtlsRoleFromSDP.
+func VerifDtlsRoleFromSDP(d *sdp.SessionDescription) DTLSRole {
+	return dtlsRoleFromSDP(d)
+}
+
+// VerifAnsweringDTLSRole reports what SetAnsweringDTLSRole left in the SettingEngine.
+func VerifAnsweringDTLSRole(e *SettingEngine) DTLSRole {
+	return e.answeringDTLSRole
+}
